@@ -12,6 +12,8 @@ import (
 	"os"
 	"strconv"
 	"strings"
+	"sync"
+	"time"
 
 	. "verifharness/common"
 	"verifharness/connsim"
@@ -70,6 +72,7 @@ func gen(a Args, out *Out) {
 		{16, connsim.FreeEnv},
 		{6, connsim.FreeReentrantConsumer},
 		{6, connsim.FreePhases},
+		{5, connsim.FreeZeroCapacities},
 		{6, connsim.FreePartialFrameClose},
 		{2, connsim.FreePeerPause},
 		{1, connsim.FreePeerPauseDefault},
@@ -114,28 +117,37 @@ func gen(a Args, out *Out) {
 		jobs = append(jobs, job{kind, connsim.Cfg{Mode: 5}})
 		ins = append(ins, in)
 	}
-	results := connsim.RunBatch(ins)
-	for i, j := range jobs {
+	// every case is recorded as soon as its scenario has completed (a run that is cut short still
+	// carries what it found); no new scenario process is started once the budget is used up
+	budget := 240 * time.Second
+	if a.Thorough() {
+		budget = 40 * time.Minute
+	}
+	var emu sync.Mutex
+	emit := func(i int, r connsim.Result) {
+		emu.Lock()
+		defer emu.Unlock()
+		j := jobs[i]
 		c := j.cfg
 		if c.Mode == 5 {
-			out.Case(j.kind, true, ins[i], results[i].Obs)
+			out.Case(j.kind, true, ins[i], r.Obs)
 			out.CountN("relayed-packets", ins[i].At(2).AsInt())
-			for _, n := range results[i].Notes {
+			for _, n := range r.Notes {
 				out.Count("inconclusive-observation")
 				out.Note("%s: inconclusive: %s", j.kind, n)
 			}
-			continue
+			return
 		}
 		if c.Mode == 4 {
-			out.Case(j.kind, true, ins[i], results[i].Obs)
+			out.Case(j.kind, true, ins[i], r.Obs)
 			out.CountN("server-connections", ins[i].At(2).AsInt())
-			for _, n := range results[i].Notes {
+			for _, n := range r.Notes {
 				out.Count("inconclusive-observation")
 				out.Note("%s: inconclusive: %s", j.kind, n)
 			}
-			continue
+			return
 		}
-		out.Case(j.kind, connsim.Nontrivial(c), ins[i], results[i].Obs)
+		out.Case(j.kind, connsim.Nontrivial(c), ins[i], r.Obs)
 		np := 0
 		for _, s := range c.Senders {
 			np += len(s)
@@ -154,7 +166,7 @@ func gen(a Args, out *Out) {
 			out.Count("cipher:off")
 		}
 		out.Count("ocap:" + strconv.Itoa(c.Ocap))
-		for _, n := range results[i].Notes {
+		for _, n := range r.Notes {
 			switch {
 			case strings.HasPrefix(n, "stuck:"):
 				out.Count("stuck-state-established")
@@ -167,5 +179,9 @@ func gen(a Args, out *Out) {
 				out.Note("%s: inconclusive: %s", j.kind, n)
 			}
 		}
+	}
+	if notRun := connsim.RunStream(ins, budget, emit); notRun > 0 {
+		out.CountN("scenarios-not-run-budget-exhausted", notRun)
+		out.Note("the generator's time budget (%v) was used up: %d scenarios were not run", budget, notRun)
 	}
 }
